@@ -41,6 +41,10 @@ func (p recvProp) Input(in interface{}) Sx { return recvInputSx(in.(recvIn)) }
 func (p recvProp) Key(inp interface{}) (string, bool) {
 	in := inp.(recvIn)
 	k := fmt.Sprintf("c%v sm%v w%d cut%d ws%v%v%v lg%v%v:", in.Component, in.SM, in.WFail, in.Cut, in.WS, in.Frag, in.PeerClose || in.PeerCloseNow, in.Logged, in.ErrWithData)
+	if len(in.WFails) > 0 || in.WFrom > 0 {
+		k += fmt.Sprintf("w%v+%d:", in.WFails, in.WFrom)
+		hist("fault:several-or-from")
+	}
 	if in.WS {
 		hist("transport:websocket")
 	} else {
@@ -49,6 +53,10 @@ func (p recvProp) Key(inp interface{}) (string, bool) {
 	st, nr := 0, 0
 	for _, it := range in.completeItems() {
 		k += it.T[:1]
+		if it.T == "serr" && it.Repl && !in.Component {
+			k += "R"
+			hist("item:serr-handler-reconnects")
+		}
 		if it.T == "stanza" {
 			k += fmt.Sprint(it.Kind)
 			st++
@@ -74,26 +82,15 @@ func (p recvProp) Oracle(inp interface{}, obs Sx) (string, string) {
 	}
 	syncLog, async, leaked := obs.L[0].L, obs.L[1].L, obs.L[2].Z
 	// what was completely received and processed before the loop had to stop
-	items := in.completeItems()
-	var processed []rItem
-	nw, endedBy := 0, "cut"
-	failedAnswers := 0
-	for _, it := range items {
-		if it.T == "bad" {
-			endedBy = "bad"
-			break
-		}
-		if it.T == "close" {
-			endedBy = "close"
-			break
-		}
+	processed, endedBy := in.processedItems()
+	nw, failedAnswers := 0, 0
+	for _, it := range processed {
 		if it.T == "r" && !in.Component {
 			nw++
-			if in.WFail == nw {
+			if in.writeFails(nw) {
 				failedAnswers++ // the answer cannot be written; the loop goes on with what it has received
 			}
 		}
-		processed = append(processed, it)
 	}
 	// 1. every stanza routed exactly once (client: as a multiset; component: in order, synchronously)
 	var wantSt []string
@@ -221,6 +218,43 @@ func (p recvProp) Oracle(inp interface{}, obs Sx) (string, string) {
 		if discAt >= 0 && quitAt > discAt {
 			return "the keepalive quit channel was still open when the Disconnected handler started: the keepalive of the lost connection goes on during the outage", "quit-after-disconnected"
 		}
+		// ... and when ANY application callback is entered on the receive goroutine (a handler called synchronously,
+		// the error callback, an event handler): under a StreamManager such a callback returns only when a new
+		// session is up
+		for i, e := range syncLog {
+			if t := e.L[0].Z; i < quitAt && (t == 0 || t == 4 || t == 5 || t == 6) {
+				return fmt.Sprintf("the keepalive quit channel was still open when the receive goroutine entered an application callback (%s)", e.String()), "quit-after-callback"
+			}
+		}
+		// without a stream error nothing is written, closed or routed by the loop once quit is closed
+		if nserr == 0 {
+			for i, e := range syncLog {
+				if t := e.L[0].Z; i > quitAt && quitAt >= 0 && t != 4 && t != 5 {
+					return fmt.Sprintf("the receive loop went on (%s) after closing the keepalive quit channel", e.String()), "active-after-quit"
+				}
+			}
+		}
+		for _, e := range syncLog {
+			if e.L[0].Z == 5 && len(e.L) >= 3 && e.L[2].K == "z" && e.L[2].Z != 1 {
+				return "the Disconnected event does not carry the session's stream-management state (Id / queue differ)", "disconnected-state"
+			}
+		}
+	}
+	if endedBy == "handover" {
+		// the handler of the stream error has replaced the connection: the loop leaves it to the new session
+		if ndisc != 0 {
+			return fmt.Sprintf("stream error whose handler reconnected: %d Disconnected events from the old loop", ndisc), "disconnected-events-handover"
+		}
+		if nerr != nserr {
+			return fmt.Sprintf("stream error whose handler reconnected: %d error callbacks (stream errors seen: %d)", nerr, nserr), "error-callbacks-handover"
+		}
+		if n := len(syncLog); n > 0 && syncLog[n-1].L[0].Z == 7 {
+			return "stream error whose handler reconnected: the old loop closed the transport, which belongs to the new session", "handover-closes-transport"
+		}
+		if leaked != 0 {
+			return fmt.Sprintf("%d goroutines of the library still alive after the loop ended", leaked), "goroutine-leak"
+		}
+		return "", ""
 	}
 	if endedBy == "close" && !in.Component {
 		// the server closed the stream: still a disconnection, but no error
@@ -250,7 +284,7 @@ func (p recvProp) Oracle(inp interface{}, obs Sx) (string, string) {
 
 func init() {
 	register(recvProp{id: "C05", w: 8, gen: genC05,
-		rule: "random inbound histories (0-60 items over message/presence/iq of each type with varied content, <r/>, <a/>, features and other non-stanza elements, stream errors, stream close, rejected elements), client with SM on/off and component, read chunk sizes 1/7/unlimited, optional failing answer write; one case in nine over the real WebSocket transport (loopback websocket server, one frame per element, frames up to 28 kB); distinct = role/sm/fault + item-kind sequence; non-trivial = >= 2 stanzas and (component or >= 1 <r/>)"})
+		rule: "random inbound histories (0-60 items over message/presence/iq of each type with varied content, <r/>, <a/>, features and other non-stanza elements, stream errors, stream close, rejected elements), client with SM on/off and component, read chunk sizes 1/7/unlimited, write faults on the answers (one write, several, or every write from some point on); histories around a stream error whose event handler leaves the connection alone or replaces it as a StreamManager does; the keepalive quit channel sampled whenever the receive goroutine enters a callback or a transport call; one case in nine over the real WebSocket transport (loopback websocket server, one frame per element, frames up to 28 kB); distinct = role/sm/fault + item-kind sequence; non-trivial = >= 2 stanzas and (component or >= 1 <r/>)"})
 }
 
 func genC05(r *rand.Rand, tier string) []interface{} {
@@ -265,6 +299,20 @@ func genC05(r *rand.Rand, tier string) []interface{} {
 	m := rItem{T: "stanza", Kind: 0, ID: 2, Var: 0}
 	m.render()
 	out = append(out, recvIn{SM: false, Items: []rItem{a, m}, Cut: -1})
+	// corners: where the keepalive quit channel is closed around a stream error (before it is routed; the elements
+	// behind it are still routed and answered); a stream error whose handler reconnects (the loop leaves the transport
+	// alone and reports nothing more); a connection that takes no write any more from the second answer on
+	{
+		mk := func(t string, id int, repl bool) rItem {
+			it := rItem{T: t, Kind: id % 3, ID: id, Repl: repl}
+			it.render()
+			return it
+		}
+		out = append(out, recvIn{SM: true, Cut: -1, Items: []rItem{mk("stanza", 1, false), mk("serr", 2, false), mk("r", 3, false), mk("stanza", 4, false)}})
+		out = append(out, recvIn{SM: true, Cut: -1, Items: []rItem{mk("stanza", 1, false), mk("r", 2, false), mk("serr", 3, true), mk("stanza", 4, false), mk("r", 5, false)}})
+		out = append(out, recvIn{SM: true, Cut: -1, Items: []rItem{mk("serr", 1, false), mk("serr", 2, true), mk("stanza", 3, false)}})
+		out = append(out, recvIn{SM: true, Cut: -1, WFrom: 2, Items: []rItem{mk("r", 1, false), mk("stanza", 2, false), mk("r", 3, false), mk("stanza", 4, false), mk("r", 5, false)}})
+	}
 	// corner: a payload nested as deep as the peer likes (generic content is decoded into a tree): the stack of the
 	// receiving goroutine must not grow with it
 	for _, kind := range []int{2, 0} {
@@ -288,6 +336,39 @@ func genC05(r *rand.Rand, tier string) []interface{} {
 		in.Items = genItems(r, r.Intn(61), r.Intn(3) == 0, in.Component)
 		if !in.Component && r.Intn(6) == 0 {
 			in.WFail = 1 + r.Intn(3)
+		}
+		if !in.Component {
+			switch r.Intn(12) {
+			case 0: // the connection is going away: every write from some point on fails
+				in.WFail, in.WFrom = 0, 1+r.Intn(3)
+			case 1: // several separate faults
+				in.WFails = []int{1 + r.Intn(2), 3 + r.Intn(2)}
+			}
+			for k := range in.Items {
+				// the handler of the stream error reconnects, as a StreamManager does
+				if in.Items[k].T == "serr" && r.Intn(3) == 0 {
+					in.Items[k].Repl = true
+				}
+			}
+		}
+		out = append(out, in)
+	}
+	// histories around a stream error: elements before it, the stream error (its handler leaves the connection alone or
+	// replaces it), elements behind it (still routed and answered in the first case, nobody's in the second), then the
+	// cut, a rejected element or the closing tag
+	for i := 0; i < n/8+4; i++ {
+		in := recvIn{Cut: -1, SM: r.Intn(2) == 0, Inb: []int{0, 2}[r.Intn(2)], Chunk: []int{0, 1, 7}[r.Intn(3)]}
+		in.Items = genItems(r, r.Intn(8), false, false)
+		se := rItem{T: "serr", Tag: r.Intn(len(serrConds)), Repl: r.Intn(2) == 0}
+		se.render()
+		in.Items = append(in.Items, se)
+		in.Items = append(in.Items, genItems(r, r.Intn(7), i%3 == 0, false)...)
+		for k := range in.Items {
+			in.Items[k].ID = k + 1
+			in.Items[k].render()
+		}
+		if r.Intn(4) == 0 {
+			in.WFrom = 1 + r.Intn(2)
 		}
 		out = append(out, in)
 	}
